@@ -96,11 +96,28 @@ where
                     "Processing service call result for request id {request_id}"
                 );
 
+                // A response that announces the end of a transaction is
+                // itself still part of that transaction: the transaction
+                // must only end once the response has been enqueued.
+                let ends_transaction = matches!(
+                    &item,
+                    Ok(call_result)
+                        if call_result.response().is_some()
+                            && matches!(
+                                call_result.feedback(),
+                                Some(ServiceFeedback::EndTransaction)
+                            )
+                );
+
                 let response =
                     self.process_response_stream_item(item, &req_msg);
 
                 if let Some(response) = response {
                     self.enqueue_response(response, &enqueue_meta).await;
+                }
+
+                if ends_transaction {
+                    self.process_feedback(ServiceFeedback::EndTransaction);
                 }
 
                 if matches!(self.status(), InvokerStatus::Aborting) {
@@ -134,8 +151,13 @@ where
         match stream_item {
             Ok(call_result) => {
                 let (response, feedback) = call_result.into_inner();
-                if let Some(feedback) = feedback {
-                    self.process_feedback(feedback);
+                match feedback {
+                    // Applied by dispatch() after the response has been
+                    // enqueued.
+                    Some(ServiceFeedback::EndTransaction)
+                        if response.is_some() => {}
+                    Some(feedback) => self.process_feedback(feedback),
+                    None => {}
                 }
                 response
             }
